@@ -693,8 +693,8 @@ pub fn gen(seed: u64, thorough: bool, out: &mut dyn FnMut(String)) {
         let n = 1 + rng.below(5) as usize;
         for _ in 0..n {
             let who = if rng.chance(1, 4) { "Xr" } else { "Xt" };
-            let (tok, len) = match rng.below(8) {
-                0 => {
+            let (tok, len) = match rng.below(24) {
+                0 | 2 => {
                     let n = rng.below(6) as usize;
                     let b = rng.bytes(n);
                     (format!("G0/{}", hex(&b)), n)
@@ -719,7 +719,7 @@ pub fn gen(seed: u64, thorough: bool, out: &mut dyn FnMut(String)) {
             };
             ops.push(format!("{}@{}={}", who, t, tok));
             let dur = b2t(rate, len as u64 * 11);
-            let gap_bits = match rng.below(6) {
+            let gap_bits = match rng.below(12) {
                 0 => rng.below(11),
                 1 => 11 + rng.below(22),
                 2 => 33,
@@ -728,7 +728,9 @@ pub fn gen(seed: u64, thorough: bool, out: &mut dyn FnMut(String)) {
             };
             let gap = b2t(rate, len as u64 * 11 + gap_bits) - dur + rng.range(-1, 1);
             let np = rng.below(4);
-            let mut pts: Vec<i64> = (0..np).map(|_| t + rng.below((dur + gap.max(0)) as u64 + 2) as i64).collect();
+            // the receiver may not poll while it transmits itself (panic): mostly poll after its transmission
+            let lo = if who == "Xr" && rng.chance(5, 6) { dur + 1 } else { 0 };
+            let mut pts: Vec<i64> = (0..np).map(|_| t + lo + rng.below((dur + gap.max(0) - lo).max(0) as u64 + 2) as i64).collect();
             if !rng.chance(1, 8) {
                 pts.sort();
             }
